@@ -353,7 +353,23 @@ pub fn edit_local(g: &Grammar, text: &str, e: &Edit) -> LV {
             LV::Ok
         }
         Edit::Push(..) => {
-            let Some((a, b)) = object_lines(g, &new, &kind, &name) else { return LV::OutOfScope("object span not determinable") };
+            let Some((a, b)) = object_lines(g, &new, &kind, &name) else {
+                // a new object that shares a line with another token changed that line
+                if let Ok(lex) = reftok::lex(&new) {
+                    if let Ok(acc) = interp::recognise(g, &lex) {
+                        if let Some(n) = find_named(&acc.root, &lex.tokens, &kind, &name) {
+                            let first_line = lex.tokens[n.first_tok].line;
+                            let last_line = lex.tokens[n.last_tok].end_line;
+                            let before = n.first_tok > 0 && lex.tokens[n.first_tok - 1].end_line >= first_line;
+                            let after = lex.tokens.get(n.last_tok + 1).map_or(false, |t| t.line <= last_line);
+                            if before || after {
+                                return LV::Viol("push-not-local", format!("the new {kind} {name} shares line {} with a token of another object\n--- new:\n{}", if before { first_line } else { last_line }, short(&new, 800)));
+                            }
+                        }
+                    }
+                }
+                return LV::OutOfScope("object span not determinable");
+            };
             let expected_old = remove_lines(&new, a, b);
             if expected_old != old {
                 return LV::Viol("push-not-local", format!("adding {kind} {name} (lines {a}..{b} of the new text) changed other lines\n--- old:\n{}\n--- new:\n{}", short(&old, 600), short(&new, 600)));
